@@ -381,13 +381,37 @@ def check_flow(ctx):
         return [n for n in ast.walk(fn.node) if isinstance(n, (ast.Attribute, ast.Name)) and txt(n) == expr_txt
                 and isinstance(getattr(n, 'ctx', None), ast.Load)]
 
-    def classify(fn, node, par, quote, need_fq):
+    def classify(fn, node, par, quote, need_fq, _depth=0):
         """'quoted' | 'test' | 'raw'."""
         p = par.get(node)
         # unwrap to_unicode(x)
         cur = node
         while isinstance(p, ast.Call) and call_name(p) in ('to_unicode', 'str') and p.args and p.args[0] is cur:
             cur, p = p, par.get(p)
+        # a small quoting helper defined inside fn (closure over the caller's mode) or next to it (mode passed on)
+        if isinstance(p, ast.Call) and isinstance(p.func, ast.Name) and p.args and p.args[0] is cur and _depth < 2:
+            helper = next((d for d in ast.walk(fn.node) if isinstance(d, ast.FunctionDef) and d is not fn.node
+                           and d.name == p.func.id), None)
+            closure = helper is not None
+            if helper is None and p.func.id in fn.module.functions and p.func.id.startswith('_'):
+                helper = fn.module.functions[p.func.id].node
+            if helper is not None and helper.args.args:
+                hp = helper.args.args[0].arg
+                hparams = [a.arg for a in helper.args.args]
+                if need_fq and 'full_quote' in hparams:
+                    kws = {k.arg: txt(k.value) for k in p.keywords}
+                    i = hparams.index('full_quote')
+                    given = kws.get('full_quote', txt(p.args[i]) if len(p.args) > i else None)
+                    if given != 'full_quote':
+                        return 'quoted-but-mode-not-forwarded'
+                elif need_fq and not closure:
+                    return 'raw'
+                hpar = parents_of(helper)
+                loads = [x for x in ast.walk(helper) if isinstance(x, ast.Name) and x.id == hp and isinstance(x.ctx, ast.Load)]
+                kinds = {classify(fn, x, hpar, quote, need_fq, _depth + 1) for x in loads}
+                if loads and kinds <= {'quoted', 'test'} and 'quoted' in kinds:
+                    return 'quoted'
+                return sorted(kinds - {'quoted', 'test'})[0] if kinds - {'quoted', 'test'} else 'raw'
         if isinstance(p, ast.Call) and call_name(p) == quote and p.args and p.args[0] is cur:
             if need_fq:
                 kws = {k.arg: txt(k.value) for k in p.keywords}
